@@ -17,7 +17,7 @@ from . import hyp_common as hc
 MODELS = ("poincare", "halfplane", "klein")
 VERTEX_TOL = 1e-6          # a path point "is" a vertex (design: nearest vertex within 1e-6)
 POINT_TOL = 1e-9           # positions of interior points; ideal points go through sqrt(1 - |k|^2): 2e-7 (as in C01)
-IDEAL_TOL = 2e-7
+IDEAL_TOL = 2e-6           # (rounding of transformed vectors with entries up to 60: ~1e-13 in |k|^2, its square root in the position)
 CAP = 10 ** 9
 MOVETO, LINETO, CURVE3, CURVE4, CLOSEPOLY = 1, 2, 3, 4, 79
 
@@ -145,11 +145,13 @@ def bezier_points(p0, ctrl):
     return nodes, np.vstack(pts)
 
 
-def vertex_id(pt, vc, extra=0.0):
-    """1-based index of the spec vertex within VERTEX_TOL (+ extra) of pt, else 0"""
+def vertex_id(pt, vc, extra=0.0, ideal=None):
+    """1-based index of the spec vertex within VERTEX_TOL (+ extra) of pt, else 0; ideal vertices (square root at the
+    boundary in the library's conformal coordinates, as in C01) get 5 VERTEX_TOL"""
     d = np.abs(vc - pt[None, :]).max(axis=1)
     i = int(np.argmin(d))
-    return i + 1 if d[i] <= VERTEX_TOL * max(1.0, float(np.abs(vc[i]).max())) + extra else 0
+    f = 5.0 if ideal is not None and ideal[i] else 1.0
+    return i + 1 if d[i] <= f * VERTEX_TOL * max(1.0, float(np.abs(vc[i]).max())) + extra else 0
 
 
 def conditioning(model, geom):
@@ -196,13 +198,13 @@ def measure_arc(model, desc, p0, ctrl):
     return dict(devn=q(dn, 1e-10), devc=q(dc, 1e-6), inside=inside, minor=minor)
 
 
-def outline_events(model, geom, closed, verts, codes):
+def outline_events(model, geom, closed, verts, codes, ideal=None):
     """events of one outline against the spec's scene geometry (vertex coordinates, edge descriptors)"""
     vc = np.array([rat2(c) for c in geom["vc"]])
     nv = len(vc)
     evs = []
     extra = conditioning(model, geom)
-    vid = lambda pt: vertex_id(pt, vc, extra)
+    vid = lambda pt: vertex_id(pt, vc, extra, ideal)
     for pc in cut_path(verts, codes):
         if pc[0] == "move":
             evs.append(dict(op="move", at=vid(pc[1])))
